@@ -226,9 +226,11 @@ def prescribed_expansion_keeps_height_contiguity_and_target_mass(ctx, n, targets
 
 @harness("C12", bounds="as above; history of two expansions: factors g, then the inverse factors 1/g on the same "
                        "components", stubs=STUBS, qtimeout_ms=30000,
-         instances={"quick": [dict(n=2, targets=("fuel", "fuel")), dict(n=3, targets=("fuel", "fuel", "fuel")),
-                              dict(n=2, targets=("clad", "fuel"))],
-                    "thorough": [dict(n=3, targets=("fuel", "clad", "fuel")), dict(n=4, targets=("fuel",) * 4)]})
+         instances={"quick": [dict(n=2, targets=("fuel", "fuel")), dict(n=3, targets=("fuel", "fuel", "fuel"))],
+                    # mixed targets sit entirely inside a recorded known finding (slow: the solver is asked for violations
+                    # outside it): thorough tier only
+                    "thorough": [dict(n=2, targets=("clad", "fuel")), dict(n=3, targets=("fuel", "clad", "fuel")),
+                                 dict(n=4, targets=("fuel",) * 4)]})
 def expansion_then_inverse_restores_the_assembly(ctx, n, targets):
     a, hs = build(ctx, n, targets)
     comps = solids(a)
